@@ -3,6 +3,7 @@ package chain
 import (
 	"bytes"
 	"context"
+	"encoding/json"
 	"fmt"
 	"sort"
 
@@ -156,7 +157,7 @@ func (o *c08Oracle) AfterTx(s *Sim, r *Replica, idx int, raw []byte, st mkvs.Key
 	}
 	expect.General.Balance = *bal
 	if !bytes.Equal(cbor.Marshal(&expect), cbor.Marshal(acctAfter)) {
-		o.viol = c08Viol("failed-tx-changed-signer-account", fmt.Sprintf("%s; the signer's account went from %s to %s, expected only nonce+1 and balance-fee: %s", what, cbor.Marshal(acctBefore), cbor.Marshal(acctAfter), cbor.Marshal(&expect)))
+		o.viol = c08Viol("failed-tx-changed-signer-account", fmt.Sprintf("%s; the signer's account went from %s to %s, expected only nonce+1 and balance-fee: %s", what, c08JSON(acctBefore), c08JSON(acctAfter), c08JSON(&expect)))
 		return
 	}
 	if len(changed) != 1 {
@@ -189,4 +190,12 @@ func (t storeTree) Get(_ context.Context, key []byte) ([]byte, error) {
 func (t storeTree) NewIterator(context.Context, ...mkvs.IteratorOption) mkvs.Iterator {
 	core.Harnessf("storeTree: iteration not supported")
 	return nil
+}
+
+func c08JSON(v interface{}) string {
+	b, err := json.Marshal(v)
+	if err != nil {
+		return fmt.Sprintf("%+v", v)
+	}
+	return string(b)
 }
